@@ -236,6 +236,18 @@ func main() {
 		}(k)
 	}
 	wg.Wait()
+	// a worker that died without a verdict (out of memory, killed) is run once more before anything is concluded
+	if replay == "" {
+		for k := range results {
+			if results[k].died {
+				cur := filepath.Join(work, fmt.Sprintf("current-%d.json", k))
+				if _, err := os.Stat(cur); err == nil {
+					continue // a write-ahead case exists: handled below (confirmation in a fresh process)
+				}
+				results[k] = runShard(bin, id, pc, tier, tc, k, seed, work, replay)
+			}
+		}
+	}
 
 	// ---- merge ---------------------------------------------------------------
 	var (
@@ -319,8 +331,27 @@ func main() {
 						}
 					}
 				default:
-					inconclusive = append(inconclusive, h.Failure{Kind: "inconclusive", Replay: promoted,
-						Msg: fmt.Sprintf("shard %d died (exit %d) but its last case passes in a fresh process:\n%s", res.k, res.exit, tail(res.log, 8))})
+					// the last case passes in a fresh process: the death was not caused by the case (resources); run the shard again
+					os.Remove(cur)
+					r3 := runShard(bin, id, pc, tier, tc, res.k, seed, work, "")
+					if r3.died || r3.report == nil {
+						inconclusive = append(inconclusive, h.Failure{Kind: "inconclusive", Replay: promoted,
+							Msg: fmt.Sprintf("shard %d died twice (exit %d) but its last case passes in a fresh process:\n%s", res.k, res.exit, tail(res.log, 8))})
+					} else {
+						rep := r3.report
+						generated += rep.Generated
+						refused += rep.Refused
+						for _, hsh := range rep.Hashes {
+							hashes[hsh] = true
+						}
+						for _, f := range rep.Failures {
+							if f.Kind == "violation" {
+								violations = append(violations, f)
+							} else {
+								inconclusive = append(inconclusive, f)
+							}
+						}
+					}
 				}
 			} else if replay != "" && res.report == nil {
 				violations = append(violations, h.Failure{Kind: "violation", Replay: replay,
